@@ -173,7 +173,7 @@ def gen_outcomes(rnd):
             if nm in steps and rnd.random() < 0.6:
                 steps[nm]["stream_on_cancel"] = rnd.choice([True, True, 0.05, 0.2, 0.3])
     elif mode == "nonevent":
-        steps["work2"]["acts"] = [{"k": "sleep", "d": {"from": "lat"}}, {"k": "ret", "type": "nonevent"}]
+        steps["work2"]["acts"] = [{"k": "sleep", "d": {"from": "lat"}}, {"k": "ret", "type": rnd.choice(["nonevent", "nonevent_falsy"])}]
         steps["work2"]["declare"] = ["EvC"]
     elif mode == "hostile":
         kind = rnd.choice(HOSTILE)
@@ -211,7 +211,11 @@ def gen_hitl_ret(rnd):
         {"name": "join", "in": ["EvC"], "nw": 1, "acts": [{"k": "collect", "types": ["EvC"] * n}, {"k": "ret", "type": "StopEvent", "result": "collected"}]},
     ]
     replies = [{"delay": rnd.choice([0, 0.5, 1, 3]), "type": "Answer", "pay": {"key": "{v}"}}]
-    return {"family": "hitl_ret", "steps": steps, "timeout": None, "responders": [{"on": "Ask", "replies": replies}], "externals": [], "meta": {"n": n}}
+    audited = rnd.random() < 0.4
+    if audited:
+        # another step of the same workflow also accepts the human-input request (an audit / notification step)
+        steps.insert(2, {"name": "audit", "in": ["Ask"], "nw": rnd.randint(1, 2), "acts": [{"k": "sleep", "d": rnd.choice([0, 0.5])}, {"k": "ret", "type": None}]})
+    return {"family": "hitl_ret", "steps": steps, "timeout": None, "responders": [{"on": "Ask", "replies": replies}], "externals": [], "meta": {"n": n, "audited": audited}}
 
 
 # ---------------------------------------------------------------- retry family (C05 / C06)
@@ -451,7 +455,15 @@ def gen_detq(rnd):
     steps.append({"name": "join", "in": ["EvC"], "nw": 1,
                   "acts": [{"k": "collect", "types": ["EvC"] * m}, {"k": "state", "op": "set", "key": "joined", "val": "done"}, {"k": "ret", "type": "EvD", "v_const": "joined"}]})
     steps.append({"name": "fin", "in": ["EvD"], "nw": 1, "acts": [{"k": "ret", "type": "StopEvent", "result": "const"}]})
-    return {"family": "det", "steps": steps, "timeout": None, "externals": [], "meta": {"m": m, "handler": True, "queue_pressure": True}}
+    plain = rnd.random() < 0.3
+    if plain:
+        # the producers hand `w` byte-identical events and `w` works on several of them at once: invocations in flight on EQUAL events
+        for st in steps:
+            if st["name"].startswith("a"):
+                st["acts"][-1]["pay"] = {"_plain": True, "fails": 0}
+            if st["name"] == "w":
+                st["nw"] = rnd.randint(2, 3)
+    return {"family": "det", "steps": steps, "timeout": None, "externals": [], "meta": {"m": m, "handler": True, "queue_pressure": True, "equal_events": plain}}
 
 
 def gen_busy(rnd):
